@@ -11,7 +11,7 @@ import (
 
 func runC13(c *Ctx, r *Report) {
 	r.Rule("C13.R1", "copying rewriter: ast.Modify never stores into the node it was given; for every node type that has children the value handed to the callback is allocated in that arm (leaves without children may be shared)")
-	r.Rule("C13.R2", "field coverage: every child-carrying field of each node type is read in its Modify arm")
+	r.Rule("C13.R2", "field coverage: every child-carrying field of each node type is read in its Modify arm and flows into a recursive Modify call; a single-node child is rewritten on every path from the arm to the callback (only a nil child may be skipped)")
 	r.Rule("C13.R3", "exhaustiveness: every node type the parser can build has an arm in Modify")
 	r.Rule("C13.R4", "arguments are quoted, not evaluated: during expansion only the macro body is evaluated; call arguments flow only into object.Quote values")
 	r.Rule("C13.R5", "unquote results are well-formed nodes: boxed in the form the visitors match, and a failed conversion is tested before it enters the tree (shared with C07.R5)")
@@ -244,9 +244,67 @@ func runC13(c *Ctx, r *Report) {
 			}
 			r.Check(ok, "C13.R2", mname, "field "+a.t.Obj().Name()+"."+st.Field(f).Name()+" is rewritten", c.Pos(a.ta.Pos()),
 				"Modify's arm for "+a.t.Obj().Name()+" does not visit "+st.Field(f).Name()+": unquote()/macro calls/registers inside that child are not substituted (or the child is dropped)")
+			// single-node children: rewritten on every path to the callback (a nil child may be skipped)
+			switch st.Field(f).Type().Underlying().(type) {
+			case *types.Slice, *types.Map:
+				continue
+			}
+			if !ok {
+				continue
+			}
+			arm := a.ta.Block().Succs[0]
+			type key struct {
+				b      *ssa.BasicBlock
+				passed bool
+			}
+			seen := map[key]bool{}
+			var bad ssa.Instruction
+			var walk func(b *ssa.BasicBlock, passed bool)
+			walk = func(b *ssa.BasicBlock, passed bool) {
+				if bad != nil || seen[key{b, passed}] {
+					return
+				}
+				seen[key{b, passed}] = true
+				for _, in := range b.Instrs {
+					call, ok := in.(*ssa.Call)
+					if !ok {
+						continue
+					}
+					if isCallTo(call, c.Fn("ast", "Modify")) && fromField(call.Common().Args[0], 0) == f {
+						passed = true
+					}
+					if call.Common().Value == ssa.Value(modify.Params[1]) && !passed {
+						bad = in
+						return
+					}
+				}
+				if ifi, ok := b.Instrs[len(b.Instrs)-1].(*ssa.If); ok {
+					if bin, ok := ifi.Cond.(*ssa.BinOp); ok && (bin.Op == token.EQL || bin.Op == token.NEQ) && isNilConst(bin.Y) && fromField(bin.X, 0) == f {
+						nilEdge := 0
+						if bin.Op == token.NEQ {
+							nilEdge = 1
+						}
+						walk(b.Succs[nilEdge], true)
+						walk(b.Succs[1-nilEdge], passed)
+						return
+					}
+				}
+				for _, sx := range b.Succs {
+					if sx == arm || arm.Dominates(sx) {
+						walk(sx, passed)
+					}
+				}
+			}
+			walk(arm, false)
+			desc := "field " + a.t.Obj().Name() + "." + st.Field(f).Name() + " is rewritten on every path to the callback"
+			if bad != nil {
+				r.Fail("C13.R2", mname, desc, c.Pos(instrPos(bad)), "a path through the arm for "+a.t.Obj().Name()+" hands the rebuilt node to the callback without having rewritten "+st.Field(f).Name()+" (the child is copied as it is): an unquote() or a macro call in that position is never substituted, e.g. the field of a dot index in a quote template")
+			} else {
+				r.Ok("C13.R2", mname, desc, c.Pos(a.ta.Pos()))
+			}
 		}
 	}
-	r.Floor("C13.R2", 18)
+	r.Floor("C13.R2", 30)
 
 	// R3 exhaustiveness
 	tr := c.TokRel()
